@@ -91,7 +91,13 @@ static int is_true(const uscxml_ctx* ctx, const char* expr) {
 static int raise_done_event(const uscxml_ctx* ctx, const uscxml_state* state, const uscxml_elem_donedata* donedata) {
 	char buf[96];
 	snprintf(buf, sizeof buf, "done.state.%s", state->name ? state->name : "?");
-	printf("r %s\n", buf);
+	/* the data the done event carries is part of what the chart can observe */
+	if (donedata && donedata->content)
+		printf("r %s dd=%s\n", buf, donedata->content);
+	else if (donedata)
+		printf("r %s dd=?\n", buf);
+	else
+		printf("r %s\n", buf);
 	iq_push(buf);
 	activity = 1;
 	return USCXML_ERR_OK;
